@@ -151,8 +151,16 @@ func keyShape(f *Func, e ast.Expr) string {
 			return "tar-header-name"
 		}
 	}
-	if f.IsParam(e, "key") {
-		return "param:key"
+	if o := objOf(info, v.E); o != nil && v.Idx < 0 {
+		for x := f; x != nil; x = x.Parent {
+			for _, fld := range x.Type.Params.List {
+				for _, nm := range fld.Names {
+					if info.Defs[nm] == o {
+						return "param"
+					}
+				}
+			}
+		}
 	}
 	return "other:" + exprString(v.E)
 }
